@@ -269,4 +269,13 @@ TokensFrom(s, c) ==
   ELSE <<[type |-> r.type, off |-> r.off, len |-> r.len]>> \o TokensFrom(s, r.c)
 
 H5Tokens(s, ctx) == TokensFrom(s, H5Init(ctx))
+
+\* the sequence of control records (state function about to run, scan offset, isClose) of a whole run:
+\* one entry per micro-step, across token boundaries (used to find the cycles of the state graph, C09)
+RECURSIVE MicroSeqN(_, _, _)
+MicroSeqN(s, c, fuel) ==
+  IF fuel = 0 THEN <<c>> ELSE
+  LET r == Micro(s, c) IN
+  IF r.k = "stop" THEN <<c>> ELSE <<c>> \o MicroSeqN(s, r.c, fuel - 1)
+MicroSeq(s, ctx) == MicroSeqN(s, H5Init(ctx), 4 * Len(s) + 8)
 ====
